@@ -1,6 +1,7 @@
 #!/bin/bash
 # usage: tools/seed_recheck.sh [name-prefix]   re-runs the quick check of every kept seeded change (patch applied to /repo, then reverted)
 # and rewrites check_result in its meta.json
+export VERIF_EVIDENCE_DIR=/verif/.work/evidence-modified-tree   # keep /verif/evidence for runs on the unchanged tree
 cd /verif
 for D in seeded/${1}*/; do
   NAME=$(basename $D); P=${NAME%%-*}
